@@ -84,6 +84,9 @@ pub enum StormBlob {
     Short { opener: String, d: usize },
     /// Arbitrary bytes.
     Raw(#[serde(with = "hex")] Vec<u8>),
+    /// A small well-formed datum (a "success storm" exercises the accounting
+    /// on the paths that do not fail).
+    Good(String),
 }
 
 #[derive(Debug, Clone, PartialEq, Serialize, Deserialize)]
@@ -117,6 +120,8 @@ pub struct HistCase {
 }
 
 pub const SENTINEL: &str = "sentinel-7f3a";
+pub const SENTINEL2: &str = "sentinel-91c4";
+pub const OVER_DEEP: usize = 140;
 
 fn gaps_vec(g: &[GapBytes]) -> Vec<Vec<u8>> {
     g.iter().map(|x| x.0.clone()).collect()
@@ -150,6 +155,7 @@ fn storm_text(blobs: &[StormBlob], probe_depth: usize) -> (Vec<u8>, Vec<u8>) {
                 }
             }
             StormBlob::Raw(b) => out.extend_from_slice(b),
+            StormBlob::Good(t) => out.extend_from_slice(t.as_bytes()),
         }
         out.push(b'\n');
     }
@@ -165,6 +171,17 @@ fn storm_text(blobs: &[StormBlob], probe_depth: usize) -> (Vec<u8>, Vec<u8>) {
         probe.push(b')');
     }
     out.extend_from_slice(&probe);
+    out.push(b'\n');
+    // second sentinel, then a datum nested beyond the documented limit
+    out.extend_from_slice(SENTINEL2.as_bytes());
+    out.push(b'\n');
+    for _ in 0..OVER_DEEP {
+        out.push(b'(');
+    }
+    out.push(b'q');
+    for _ in 0..OVER_DEEP {
+        out.push(b')');
+    }
     out.push(b'\n');
     (out, probe)
 }
@@ -755,6 +772,28 @@ fn check_storm(case: &HistCase, blobs: &[StormBlob], probe_depth: usize, mon: &m
             }
         }
     }
+    // O3.2 across calls: whatever came before, a datum nested beyond the limit is refused
+    let sentinel2 = Value::symbol(SENTINEL2);
+    if let Some(p) = run.steps.iter().position(|s| matches!(&s.res, Ok(Some(v)) if *v == sentinel2)) {
+        mon.count("c03.storm_overdeep_probe_reached");
+        if let Some(s) = run.steps[p + 1..].iter().find(|s| s.op != Op::ExpectEnd) {
+            if matches!(s.res, Ok(Some(_))) {
+                mon.violate(
+                    "C03",
+                    "O3.2",
+                    "after earlier calls on the same parser, nesting deeper than the documented limit is accepted".into(),
+                    format!(
+                        "opts[{}] source={}: after {} steps ({} errors) on this parser a {}-level datum was accepted",
+                        opts::describe_parse(case.opts),
+                        case.source.name(),
+                        p,
+                        errors,
+                        OVER_DEEP
+                    ),
+                );
+            }
+        }
+    }
 }
 
 pub fn check_hist_case(case: &HistCase, mon: &mut Mon) {
@@ -1166,6 +1205,45 @@ fn draw_storm(rng: &mut Rng) -> (Vec<StormBlob>, bool) {
         16..=18 => (rng.urange(30, 45), 140, true),
         _ => (rng.urange(130, 160), 132, true),
     };
+    if rng.chance(1, 4) {
+        // success storm: many small well-formed datums, every nesting construct
+        let k = if rng.chance(1, 2) { rng.urange(130, 300) } else { rng.urange(1, 60) };
+        const GOOD: &[&str] = &[
+            "#()", "#(a)", "(a)", "[a]", "'a", "`(a ,b)", "#(#() #())", "(a . b)", "#u8(1 2)", "((a))", "#(#(a) b)", "()", "[[]]", ",@(a)", "(a #(b) 'c)", "#((a) [b])",
+            "(() . ())", "''a",
+        ];
+        let one = rng.chance(1, 2);
+        let pick = *rng.pick(GOOD);
+        let blobs = (0..k).map(|_| StormBlob::Good(if one { pick.to_string() } else { (*rng.pick(GOOD)).to_string() })).collect();
+        return (blobs, false);
+    }
+    if rng.chance(1, 4) {
+        // storm of errors raised *inside* a nesting construct (a bad token, a
+        // stray closer or nothing at all after one to three openers of any kind)
+        let k = if rng.chance(1, 2) { rng.urange(130, 300) } else { rng.urange(1, 60) };
+        let fixed_opener = if rng.chance(1, 2) { Some(*rng.pick(text::OPENERS)) } else { None };
+        const BAD: &[&str] = &["#z", ")", "]", "#\\xZZ", "\"\\q\"", "1.5.5x", "#u8(300)", "", "|", ". ."];
+        let blobs = (0..k)
+            .map(|_| {
+                let depth = rng.urange(1, 3);
+                let mut t = String::new();
+                let mut closers = Vec::new();
+                for _ in 0..depth {
+                    let o = fixed_opener.unwrap_or_else(|| *rng.pick(text::OPENERS));
+                    t.push_str(o);
+                    closers.push(text::closer_for(o));
+                }
+                t.push_str(*rng.pick(BAD));
+                if rng.chance(2, 3) {
+                    while let Some(c) = closers.pop() {
+                        t.push_str(c);
+                    }
+                }
+                StormBlob::Raw(t.into_bytes())
+            })
+            .collect();
+        return (blobs, false);
+    }
     let shape = rng.below(4);
     let blobs = (0..k)
         .map(|_| {
